@@ -37,10 +37,16 @@ def raw_opaque(n):
     return n.rsplit("::", 1)[-1] in ("try_index", "index_const", "index")
 
 
+def text_opaque(n):
+    """for the text rules of Square and Move: the char tables of the coordinate enums are atoms (decided on their own)"""
+    return raw_opaque(n) or (n.startswith("<cozy_chess_types::") and n.endswith("core::convert::TryFrom<char>>::try_from"))
+
+
 def rpaths(f, name, **kw):
     b = f.need(name)
     kw.setdefault("auto_unroll", True)
-    return b, sym.SymExec(f, b, raw=True, opaque=raw_opaque, max_depth=6, **kw).run()
+    op = kw.pop("opaque", raw_opaque)
+    return b, sym.SymExec(f, b, raw=True, opaque=op, max_depth=6, **kw).run()
 
 
 PANIC_TABLE = {}
@@ -267,6 +273,31 @@ def run(ctx):
                         break
                 if bad:
                     break
+        # the same decided without naming the sums: every decision of every path looks at one offset only (so the accepted
+        # offset pairs are a product set), and along each axis -- all 64 squares x all 256 offsets, the other offset 0 -- the
+        # answer is Some exactly when the moved coordinate stays on the board
+        if not (good == 2 and not bad):
+            sep = all(not (has_(c[0], P("file_offset")) and has_(c[0], P("rank_offset"))) for p_ in ps for c in p_.conds)
+            bad_ax = []
+            if sep:
+                for off, other, uses_f in (("file_offset", "rank_offset", True), ("rank_offset", "file_offset", False)):
+                    for s_ in range(64):
+                        coord = s_ % 8 if uses_f else s_ // 8
+                        for d_ in range(-128, 128):
+                            try:
+                                got_ = conc.eval_paths(ps, {P("self"): s_, P(off): d_, P(other): 0}, NV)
+                            except Stuck as e:
+                                bad_ax.append(str(e))
+                                break
+                            if (got_ != ("none",)) != (0 <= coord + d_ <= 7):
+                                bad_ax.append((s_, off, d_, got_))
+                                break
+                        if bad_ax:
+                            break
+                if not bad_ax:
+                    good, bad = 2, []
+                else:
+                    bad = bad + bad_ax[:2]
         ctx.check(good == 2 and not bad, "try_offset:sums+guards",
                   "try_offset's coordinate sums are not exactly file+df / rank+dr guarded by 0..=7: %s" % bad[:3], loc(b),
                   sample={"try_offset": "Some iff 0<=file+df<8 and 0<=rank+dr<8", "pairs checked": 2 * 64 * 256, "guard points": 263 * 263})
@@ -413,7 +444,7 @@ def run(ctx):
         ctx.check(okd, "Display:%s" % en, "%s's Display does not write exactly the table's char: %s" % (en, sym.show(r)[:120] if r else None), loc(b4))
     # ------------------------------------------------------------------ Square and Move
     ctx.rule("square+move-text")
-    b, ps = rpaths(f, "<%s as core::str::traits::FromStr>::from_str" % (T + "square::Square"), count_next=True)
+    b, ps = rpaths(f, "<%s as core::str::traits::FromStr>::from_str" % (T + "square::Square"), count_next=True, opaque=text_opaque)
     S = ("chars", ("ptr", ("P", "s"), (), False))
     oks = 0
     for p in ps:
@@ -462,13 +493,19 @@ def run(ctx):
     ctx.check(oks == 1, "Square::from_str:one-accepting-path", "Square::from_str has %d accepting paths" % oks, loc(b))
     # Display order via the two display arguments
     b, ps = rpaths(f, "<%s as core::fmt::Display>::fmt" % (T + "square::Square"))
-    order = []
-    for p in ps[:1]:
+    orders = []
+    for p in ps:
+        order = []
+        orders.append(order)
         for e in p.events:
-            if e.kind == "call" and e.name.endswith("Argument<'_>::new_display"):
-                a = e.args[0]
+            as_char = e.kind == "call" and e.name.endswith("::write_char") and "core::fmt" in e.name
+            if (e.kind == "call" and e.name.endswith("Argument<'_>::new_display")) or as_char:
+                a = e.args[1] if as_char else e.args[0]
                 if a[0] == "ptr":
                     a = e.extra.get("pointees", {}).get(0, a)
+                # the coordinate written as its character: look through the conversion to char
+                while a[0] == "call" and len(a[2]) == 1 and (a[1].endswith("Into<U>>::into") or a[1].endswith(">::from") or a[1] == "char::from"):
+                    a = a[2][0]
                 # which coordinate the argument is: evaluated for all 64 squares
                 kind = "?"
                 try:
@@ -480,7 +517,9 @@ def run(ctx):
                 except (Stuck, TypeError, KeyError, IndexError):
                     pass
                 order.append(kind)
-    ctx.check(order == ["file", "rank"], "Square::fmt:order", "Square's Display does not format file then rank: %s" % order, loc(b), sample={"Square::fmt": order})
+    # the path on which everything is written (a write followed by `?` also has a path that stops early: a prefix of it)
+    order = max(orders, key=len) if orders else []
+    ctx.check(order == ["file", "rank"] and all(o_ == order[:len(o_)] for o_ in orders), "Square::fmt:order", "Square's Display does not format file then rank: %s" % order, loc(b), sample={"Square::fmt": order})
     # Move::from_str
     mname = "<%s as core::str::traits::FromStr>::from_str" % (T + "chess_move::Move")
     b, ps = rpaths(f, mname, max_inline_blocks=120)
@@ -507,6 +546,30 @@ def run(ctx):
             if rg[0] == "agg":
                 d = dict(rg[4])
                 ranges.append((d.get("start", ("int", 0))[1], d["end"][1] if "end" in d else None))
+        if not gets:
+            # the same pieces cut off with split_at_checked: (text[..k], text[k..]) of the text or of a later piece of it
+            def piece(t_):
+                """byte range of a piece of the text, or None"""
+                while t_[0] in ("ref", "deref"):
+                    t_ = t_[1]
+                if t_ == sptr:
+                    return (0, None)
+                if t_[0] == "field" and t_[2] in ("0", "1") and t_[1][0] == "field" and t_[1][2] == "0" and t_[1][1][0] == "downcast" and t_[1][1][2] == "Some":
+                    c_ = t_[1][1][1]
+                    if c_[0] == "call" and c_[1] in ("str::split_at_checked", "core::str::<impl str>::split_at_checked") and c_[2][1][0] == "int":
+                        base = piece(c_[2][0])
+                        if base is None:
+                            return None
+                        k_ = c_[2][1][1]
+                        return (base[0], base[0] + k_) if t_[2] == "0" else (base[0] + k_, base[1])
+                return None
+            used = []
+            for x_ in [c[0] for c in p.conds] + [r]:
+                for u_ in sym.subterms(x_, lambda y: y[0] == "call" and y[1] in ("str::parse", "str::is_empty", "core::str::<impl str>::is_empty") and y[2]):
+                    pr_ = piece(u_[2][0])
+                    if pr_ is not None and pr_ not in used:
+                        used.append(pr_)
+            ranges = used
         ranges.sort(key=lambda x: x[0])
         cover = ranges == [(0, 2), (2, 4), (4, None)]
         ctx.check(cover, "Move::from_str:consumes-whole-input",
